@@ -219,7 +219,7 @@ func runC11(c *rt.Ctx) {
 	})
 	c.Require("year-aliasing-history", 100)
 
-	nSeeded := c.Pick(1000000, 10000000)
+	nSeeded := c.Pick(1000000, 40000000)
 	c.Parallel("far-years", 0, func(w *rt.W) {
 		for i := 0; i < nSeeded/w.NShards; i++ {
 			y := int64(w.Rng.U64()%1999999999) - 999999999
@@ -284,7 +284,7 @@ func runC11(c *rt.Ctx) {
 	})
 	c.Exhaustive("all 256 version bytes x lengths {1,6,7,8}; all lengths 0..16")
 
-	nRand := c.Pick(1000000, 10000000)
+	nRand := c.Pick(1000000, 50000000)
 	c.Parallel("random-payloads", 0, func(w *rt.W) {
 		for i := 0; i < nRand/w.NShards; i++ {
 			data := w.Rng.Bytes(7)
